@@ -20,3 +20,9 @@ impl Default for ChannelModes {
             !r.invite_only, !r.moderated, !r.secret, !r.protected_topic, !r.no_external_messages
     { unimplemented!() }
 }
+impl Clone for NickHistoryEntry {
+    #[verifier::external_body]
+    fn clone(&self) -> (r: Self)
+        ensures r == *self
+    { unimplemented!() }
+}
